@@ -925,6 +925,11 @@ type c02In struct {
 	// root replaced on disk by new inodes) that come before the judged request. Cases with steps run
 	// on sites of their own, rooted in c02Q.
 	Pre []c02Step `json:"pre,omitempty"`
+	// Range header (verbatim) and symbolic validators (c02_range.go)
+	Range   string `json:"range,omitempty"`
+	INM     string `json:"inm,omitempty"`
+	IMS     string `json:"ims,omitempty"`
+	IfRange string `json:"if_range,omitempty"`
 }
 
 type c02Member struct {
@@ -946,6 +951,8 @@ type c02Obs struct {
 	Names   []string `json:"names,omitempty"`
 	Counts  []uint64 `json:"counts,omitempty"` // HTML listing: the numbers of directories and of files it announces
 	BodyLen int      `json:"len"`
+	Parts   []c02Part `json:"parts,omitempty"` // range / conditional cases: the pieces of a 200 / 206 file answer
+	FileAns bool     `json:"file_answer,omitempty"`
 	Err     string   `json:"err,omitempty"`
 	Note    string   `json:"note,omitempty"`
 }
@@ -1099,8 +1106,22 @@ func c02Do(in *c02In) (c02Obs, error) {
 	if in.JSON { // browse looks for "application/json" anywhere in the lower-cased Accept header
 		hdr["Accept"] = []string{"application/json", "text/html, Application/JSON;q=0.9", "application/json, */*"}[len(in.Target)%3]
 	}
+	if in.isRange() {
+		probe := doRaw(addr, "HEAD", in.Target, hdr, nil)
+		c02CondHeaders(in, tree, hdr, probe.Header)
+	}
 	resp := doRaw(addr, in.Method, in.Target, hdr, nil)
 	o := c02Obs{Status: resp.Status, BodyLen: len(resp.Body), Err: resp.Err}
+	if in.isRange() && resp.Header != nil {
+		o.FileAns = resp.Header.Get("Etag") != "" || resp.Status == 206 || resp.Status == 304 || resp.Status == 416
+		if o.FileAns {
+			// Content-Length describes the piece, not the file: the file is identified by ETag and Last-Modified
+			resp.Header.Del("Content-Length")
+			if in.Method == "GET" && (resp.Status == 200 || resp.Status == 206) {
+				o.Parts = c02Parts(tree, resp.Status, resp.Header, resp.Body)
+			}
+		}
+	}
 	if resp.Header != nil {
 		o.Loc = resp.Header.Get("Location")
 		o.CE = resp.Header.Get("Content-Encoding")
@@ -1117,11 +1138,14 @@ func c02Do(in *c02In) (c02Obs, error) {
 			diff = fmt.Sprintf("status %d vs GET %d", resp.Status, get.Status)
 		} else if get.Header != nil {
 			for _, k := range []string{"Location", "Etag", "Last-Modified", "Content-Encoding", "Content-Type"} {
+				if k == "Content-Type" && strings.HasPrefix(resp.Header.Get(k), "multipart/byteranges; boundary=") && strings.HasPrefix(get.Header.Get(k), "multipart/byteranges; boundary=") {
+					continue // the boundary is drawn at random for every answer
+				}
 				if get.Header.Get(k) != resp.Header.Get(k) {
 					diff = k + " differs from GET's"
 				}
 			}
-			if resp.Header.Get("Etag") != "" && get.Header.Get("Content-Length") != resp.Header.Get("Content-Length") {
+			if !in.isRange() && resp.Header.Get("Etag") != "" && get.Header.Get("Content-Length") != resp.Header.Get("Content-Length") {
 				diff = "Content-Length differs from GET's"
 			}
 		}
@@ -1405,6 +1429,13 @@ func c02Run(in0 interface{}) Result {
 		sitePrefix = "/pre"
 	}
 	site := cApp("mksite", cStr(fx.root), cStr(filepath.Join(fx.base, c02Origin(in.Site))), cStr(sitePrefix), cStr(scope), cStrList(types))
+	if in.isRange() && o.FileAns && !prefixSite {
+		inm, ims, ifr := c02CondClasses(in)
+		cond := cApp("mkcond", cStr(in.Range), cN(inm), cN(ims), cN(ifr))
+		term := cApp("CRange", site, req, cond, c02Sizes(c02Main), ob, c02PartsTerm(o.Parts))
+		return Result{Term: term, Obs: o, Sig: "range:" + outsideTok(c02Sig(in, p, query)), Nontrivial: o.Status == 200 || o.Status == 206 || o.Status == 304 || o.Status == 416,
+			Key: key + "|" + in.Range + "|" + in.INM + "|" + in.IMS + "|" + in.IfRange, Class: fmt.Sprintf("range:%s:%d:parts%d", in.Method, o.Status, len(o.Parts))}
+	}
 	if len(in.Pre) > 0 {
 		// a sequence: after every disk step the tree is again the table's (c02Swap re-verifies it), so
 		// the judged request is an ordinary case on the twin site — the model and the property are
@@ -1873,6 +1904,7 @@ func c02Gen(r *Rand, tier string) []interface{} {
 
 	// multi-site Casketfiles
 	out = append(out, c02GenMulti(r, thorough)...)
+	out = append(out, c02GenRange(r, thorough)...)
 	out = append(out, c02GenSeq(r, thorough)...)
 
 	// the symlink site (contract only)
@@ -2033,7 +2065,7 @@ func c02GenMulti(r *Rand, thorough bool) []interface{} {
 func init() {
 	register(&Property{
 		ID: "C02", Imports: "V.Lib V.GoPath V.Gen_C02 V.Gen_C02b V.C02_Model", Judge: "judge", Shard: 285,
-		Rule:   "real in-process sites (static; browse / with every archive type; browse /dir with zip, tar.gz; the same root under a site path prefix /pre; the origin Casketfile in a sub-directory of the root / outside it / in a sibling directory named root+x) rooted in a fixture with files, nested directories, index pages (incl. a directory named index.html and a hidden index page), .gz/.br/.zst siblings (incl. a hidden one and a directory named like one), hard links, odd names, the origin Casketfile inside the root, `internal`-hidden files and an `internal`-hidden directory, plus token files outside the root; raw request lines: exhaustive targets of depth <= 2 (3 sampled / full) over the segment alphabet {a.txt, dir, ., .., empty, %2e, %2E%2e, %2f, backslash, %5c, A.TXT, Casketfile, x} x trailing slash (static; sampled on browse with ?archive=); every directory x archive types / sort orders / JSON; open-redirect shapes (1..5 leading slashes x foreign first segment x dot-dot x directory or file-with-slash); every file x Accept-Encoding subsets and decoys; random respellings (dot segments, doubled / encoded slashes and dots, case flips, backslashes, climbing above the root, NUL) x methods x queries. MULTI-SITE Casketfiles written to disk and loaded from there (2-3 sites s0/s1/s2.c02.test, every ordered pair and sampled / every ordered triple over the root relations {contains the Casketfile directly, in a sub-directory, not at all (below / beside), sibling with a string-prefix name}; one port, one per site, two sharing; root spelled cleaned / trailing slash / with /./ / with x/../ / not at all (default root); blocks with two addresses), requests to EVERY site with its Host header: the Casketfile under every name it has in that root, its directory as HTML / JSON listing and as archive, random respellings; every directory x 24 spellings of ?limit= (HTML / JSON, sort, order); HEAD beside GET for every file and every hidden spelling (the file a header describes is identified by ETag, Content-Length, Last-Modified); a site with symbolic links (judged against the executable property only); SEQUENCES on one running site (twin sites rooted in a second copy of the main tree): a request that evaluates the hide list, then a hide-list entry (origin Casketfile, internal files, hidden sibling, hidden index page, hidden directory) or its directory or a visible control replaced on disk by a new inode (write + rename, directories swapped whole; tree re-verified against the table), then the entry asked for again directly (spellings), below it, via sibling / index page, in HTML / JSON listings and archives of its directory and of the root; longer histories (request, swap, request, swap, request) with every request judged. Prefix-site cases are modelled like the others (the path the handlers see is computed as trimPathPrefix does); those whose path does not start with the prefix never reach the site and are judged against the executable property only (CContract). Non-trivial = answers 200 or 3xx",
+		Rule:   "real in-process sites (static; browse / with every archive type; browse /dir with zip, tar.gz; the same root under a site path prefix /pre; the origin Casketfile in a sub-directory of the root / outside it / in a sibling directory named root+x) rooted in a fixture with files, nested directories, index pages (incl. a directory named index.html and a hidden index page), .gz/.br/.zst siblings (incl. a hidden one and a directory named like one), hard links, odd names, the origin Casketfile inside the root, `internal`-hidden files and an `internal`-hidden directory, plus token files outside the root; raw request lines: exhaustive targets of depth <= 2 (3 sampled / full) over the segment alphabet {a.txt, dir, ., .., empty, %2e, %2E%2e, %2f, backslash, %5c, A.TXT, Casketfile, x} x trailing slash (static; sampled on browse with ?archive=); every directory x archive types / sort orders / JSON; open-redirect shapes (1..5 leading slashes x foreign first segment x dot-dot x directory or file-with-slash); every file x Accept-Encoding subsets and decoys; random respellings (dot segments, doubled / encoded slashes and dots, case flips, backslashes, climbing above the root, NUL) x methods x queries. MULTI-SITE Casketfiles written to disk and loaded from there (2-3 sites s0/s1/s2.c02.test, every ordered pair and sampled / every ordered triple over the root relations {contains the Casketfile directly, in a sub-directory, not at all (below / beside), sibling with a string-prefix name}; one port, one per site, two sharing; root spelled cleaned / trailing slash / with /./ / with x/../ / not at all (default root); blocks with two addresses), requests to EVERY site with its Host header: the Casketfile under every name it has in that root, its directory as HTML / JSON listing and as archive, random respellings; every directory x 24 spellings of ?limit= (HTML / JSON, sort, order); HEAD beside GET for every file and every hidden spelling (the file a header describes is identified by ETag, Content-Length, Last-Modified); a site with symbolic links (judged against the executable property only); SEQUENCES on one running site (twin sites rooted in a second copy of the main tree): a request that evaluates the hide list, then a hide-list entry (origin Casketfile, internal files, hidden sibling, hidden index page, hidden directory) or its directory or a visible control replaced on disk by a new inode (write + rename, directories swapped whole; tree re-verified against the table), then the entry asked for again directly (spellings), below it, via sibling / index page, in HTML / JSON listings and archives of its directory and of the root; longer histories (request, swap, request, swap, request) with every request judged. Prefix-site cases are modelled like the others (the path the handlers see is computed as trimPathPrefix does); those whose path does not start with the prefix never reach the site and are judged against the executable property only (CContract). RANGE / CONDITIONAL requests (c02_range.go): GET and HEAD on every file, index page, precompressed sibling, hidden file and its sibling, directory and listing of the static / browse / scoped / origin-sub sites with a Range header (single, multiple, suffix, open-ended, overlapping, longer than the file, unsatisfiable, malformed: 47 fixed spellings + random ones) and If-None-Match / If-Modified-Since / If-Range built from the validators of a probe; the pieces of every 200 / 206 body (multipart/byteranges read with mime/multipart) are located byte for byte in the files on disk. Non-trivial = answers 200, 206, 304, 416 or 3xx",
 		Gen:    c02Gen,
 		Decode: func(raw json.RawMessage) (interface{}, error) { in := &c02In{}; return in, json.Unmarshal(raw, in) },
 		Run:    c02Run,
